@@ -238,6 +238,16 @@ impl DeriveWhere {
 		})
 	}
 
+	/// Returns `true` if all bounds are [`CustomBound`](Generic::CustomBound)s,
+	/// which means that every `impl` generated from this attribute has the same
+	/// `where` clause.
+	pub fn only_custom_bounds(&self) -> bool {
+		self.generics.iter().all(|generic| match generic {
+			Generic::CustomBound(_) => true,
+			Generic::NoBound(_) => false,
+		})
+	}
+
 	/// Returns `true` if the given generic type parameter if present.
 	pub fn has_type_param(&self, type_param: &Ident) -> bool {
 		self.generics.iter().any(|generic| match generic {
